@@ -26,7 +26,9 @@ Inductive ccase : Type :=
 | CIntSplit (b : bytes) (o : res (N * bytes))
 | CSymSplit (b : bytes) (o : res (bytes * bytes))
 | CWriteSize (n : N) (o : res bytes)
-| CWriteSym (s : bytes) (o : res bytes).
+| CWriteSym (s : bytes) (o : res bytes)
+(* the dev/disasm command run on a file holding b: exit status and standard output *)
+| CDisasm (b : bytes) (exit : N) (out : bytes).
 
 Definition ib_eqb := pair_eqb instr_eqb bytes_eqb.
 Definition nb_eqb := pair_eqb N.eqb bytes_eqb.
@@ -46,6 +48,14 @@ Definition corr_ok (c : ccase) : bool :=
   | CSymSplit b o => outcome_eqb bb_eqb (sym_split b) o
   | CWriteSize n o => outcome_eqb bytes_eqb (write_size n) o
   | CWriteSym s o => outcome_eqb bytes_eqb (write_sym s) o
+  | CDisasm b ex out =>
+    (* dev/disasm/main.go: ToString error => "parse error" on stderr, exit 1; otherwise the listing
+       is printed (through Printf, so a listing containing '%' is not compared) and exit 0 *)
+    match to_string b with
+    | Ok t => (ex =? 0) && (existsb (N.eqb 37) t || bytes_eqb out t)
+    | Err _ => (ex =? 1) && bytes_eqb out []
+    | Panic _ => ex =? 2
+    end
   end.
 
 (* C14 on the implementation's observed behaviour: an encodable program decodes to itself,
@@ -83,6 +93,15 @@ Definition c15_ok (c : ccase) : bool :=
        end
   | CIntSplit _ o => negb (is_panic o)
   | CSymSplit _ o => negb (is_panic o)
+  | CDisasm b ex out =>
+    (* exit 2 is the Go runtime's status for an unrecovered panic *)
+    negb (ex =? 2)
+    && (if ex =? 0 then
+          match strict_all b with
+          | Some p => existsb (N.eqb 37) (print_prog p) || bytes_eqb out (print_prog p)
+          | None => false
+          end
+        else true)
   | _ => true
   end.
 
